@@ -175,7 +175,7 @@ def pragma_text(v):
 # C02
 # ---------------------------------------------------------------------------------------
 def check_c02(tier, t0):
-    progs = pick(all_progs(), tier, 30)
+    progs = pick(all_progs(), tier, 30) + names_family(twice=True)
     vecs = semantic_vectors(tier) + comment_vectors()
     if tier == "quick":
         # every program under 5 seeded vectors + the comment vectors; every vector used
@@ -333,9 +333,10 @@ def check_c04(tier, t0):
 # ---------------------------------------------------------------------------------------
 # C05: labels
 # ---------------------------------------------------------------------------------------
-def names_family():
+def names_family(twice=False):
     """identifier sets for functions: prefixes of one another, '_' segments (labels use '.'),
-    opcode-like, register/device-like"""
+    opcode-like, register/device-like.  twice: every function is called from two places, so none is
+    inlined (C02 uses this form: the single-call form has the shape of the listed inlining defect)"""
     sets = [
         ("nm_prefix", ["upd", "updx", "updxy"]),
         ("nm_suffix", ["run", "prerun", "rerun"]),
@@ -351,24 +352,74 @@ def names_family():
         src = (corpus.HEADER + f"def {fa}(xa):\n    d1.Setting = xa\n    return xa + 1\n"
                f"def {fb}(xa):\n    if xa > 0:\n        return {fa}(xa) * 2\n    return 3\n"
                f"def {fc}(xa):\n    return {fb}(xa) - {fa}(xa)\n"
-               f"while True:\n    d2.Setting = {fc}(d0.Setting) + {fa}(1)\n    yield_()\n")
-        out.append((nm, src, "names"))
+               f"while True:\n    d2.Setting = {fc}(d0.Setting) + {fa}(1)\n" +
+               (f"    d3.Setting = {fb}(2) + {fc}(1)\n" if twice else "") + "    yield_()\n")
+        out.append((nm + ("2" if twice else ""), src, "names"))
     return out
 
 
-def label_lines(code):
+def owners_of(code, post):
+    """owning function of every line of the labels-kept text, from hook H1's post stream (None: unknown)"""
+    if post is None:
+        return None
+    stream = post["stream"]
+    lab_fn = {}
+    instr = []
+    for e in stream:
+        t = ic10load.tokenize(e["text"])
+        if len(t) == 1 and t[0].endswith(":"):
+            lab_fn.setdefault(t[0][:-1], e.get("fn"))
+        elif t:
+            instr.append(e.get("fn"))
     out = []
+    k = 0
     for l in code.split("\n"):
         t = ic10load.tokenize(l)
         if len(t) == 1 and t[0].endswith(":") and len(t[0]) > 1:
-            out.append({"lab": t[0][:-1], "toks": []})
+            out.append(lab_fn.get(t[0][:-1]))
+        elif t:
+            out.append(instr[k] if k < len(instr) else None)
+            k += 1
         else:
-            out.append({"lab": "", "toks": t})
+            out.append(None)
+    return out
+
+
+def label_lines(code, owners=None):
+    out = []
+    sig = ic10load.opsig()
+    for l in code.split("\n"):
+        t = ic10load.tokenize(l)
+        if len(t) == 1 and t[0].endswith(":") and len(t[0]) > 1:
+            out.append({"lab": t[0][:-1], "toks": [], "tgt": ""})
+        else:
+            tgt = ""
+            kinds = sig.get(t[0], []) if t else []
+            for k, kind in enumerate(kinds):
+                if kind == "T" and k + 1 < len(t):
+                    tok = t[k + 1]
+                    if ic10load.IDENT_RE.match(tok) and ic10load.reg_index(tok) is None:
+                        tgt = tok
+            out.append({"lab": "", "toks": t, "tgt": tgt})
+    for k, rec in enumerate(out):
+        o = owners[k] if owners is not None and k < len(owners) else None
+        rec["fn"] = "?" if o is None else o
+    return out
+
+
+def modules_as_programs():
+    """library programs for the label checks: split sources (dict) incl. a library function with an early return
+    that is called twice and whose name also exists in the main file / does not exist there"""
+    H = corpus.HEADER
+    out = [(n, split, "modules") for n, split, merged in modules_family()]
+    lib_c = H + "def update(xa):\n    if xa > 1:\n        return xa * 2\n    d3.Setting = xa\n    return xa + 1\n"
+    main5 = H + "from library import ctl\nwhile True:\n    d1.Setting = ctl.update(d0.Setting) + ctl.update(1)\n    yield_()\n"
+    out.append(("md_early_only", {"": main5, "ctl": lib_c}, "modules"))
     return out
 
 
 def check_c05(tier, t0):
-    progs = names_family() + pick(all_progs(["branches", "loops", "functions"]), tier, 14)
+    progs = names_family() + modules_as_programs() + pick(all_progs(["branches", "loops", "functions"]), tier, 14)
     bases = [cw.REF, cw.opts(use_push_pop_functions=True)]
     if tier == "thorough":
         bases += [cw.opts(inline_functions=True), cw.opts(tail_call_optimization=True), cw.opts(compact=True)]
@@ -390,12 +441,15 @@ def check_c05(tier, t0):
                 continue
             items.append({"name": n, "tag": kb, "case": equiv.make_case(ic10load.load(ca), ic10load.load(cb)), "src": s,
                           "a_text": ca, "b_text": cb, "sample": sample_of(n, kb, s, cb)})
-            static.append({"name": n, "tag": kb, "kept": label_lines(ca), "removed": label_lines(cb), "src": s, "a_text": ca, "b_text": cb})
+            pre_a, post_a = h1_streams(mat[(n, ka)])
+            entries = sorted(fi["label"] for fname, fi in (pre_a["functions"].items() if pre_a else []) if fname and fi["emitted"] and not fi["inlined"])
+            static.append({"name": n, "tag": kb, "kept": label_lines(ca, owners_of(ca, post_a)), "removed": label_lines(cb), "entries": entries,
+                           "src": s, "a_text": ca, "b_text": cb})
     # static part: spec/Labels.tla evaluated by TLC on the artefacts
     d = workdir("C05_static")
     with open(os.path.join(d, "cases.json"), "w") as f:
-        json.dump([{"kept": c["kept"], "removed": c["removed"]} for c in static] +
-                  [{"kept": static[0]["kept"], "removed": static[0]["removed"][:-1]}], f)  # last = mutant (self-test)
+        json.dump([{"kept": c["kept"], "removed": c["removed"], "entries": c["entries"]} for c in static] +
+                  [{"kept": static[0]["kept"], "removed": static[0]["removed"][:-1], "entries": static[0]["entries"]}], f)  # last = mutant (self-test)
     with open(os.path.join(d, "Labels.cfg"), "w") as f:
         f.write("SPECIFICATION Spec\nCHECK_DEADLOCK FALSE\n")
     r = run_tlc(os.path.join(SPEC, "Labels.tla"), os.path.join(d, "Labels.cfg"), d, workers=4, timeout=600)
